@@ -48,6 +48,9 @@ func runC14(c *Ctx, r *Report) {
 	callbacksTakeNoLogLock(c, r, "R-C14.8")
 	importRules(c, r, "C02", []string{"R-C02.6", "R-C02.10"}, "R-C14.7")
 	importRules(c, r, "C06", []string{"R-C06.11"}, "R-C14.7")
+	r.Doc("R-C14.9", "no structure that holds a lock is ever copied — no value receiver, assignment, argument, result or range value of such a type: the merge reads the live source through its methods, and a method on a copy locks the copy's lock (no exclusion; a copy taken under a writer can never be read-locked)")
+	noLockCopied(c, r, "R-C14.9")
+	lockCopyControls(c, r, "R-C14.9")
 	nrec := 0
 	for _, e := range le.Edges {
 		if e.HeldClass == "IPFSLog.lock" && e.AcqClass == "IPFSLog.lock" && e.HeldBase == e.AcqBase {
